@@ -89,6 +89,18 @@ pub fn run_index(prop: &str, seed: u64, thorough: bool, ctx: &Ctx, sink: &mut dy
             let res = run_case(&c, ctx);
             sink(&c, res);
         }
+        "C13" | "C14" | "C15" | "C17" => {
+            use crate::w2_gen::{gen_w2, Focus};
+            let f = match prop {
+                "C13" => Focus::Vec,
+                "C14" => Focus::Str,
+                "C15" => Focus::Drops,
+                _ => Focus::Boxes,
+            };
+            let c = Case::W2(gen_w2(seed, f));
+            let res = run_case(&c, ctx);
+            sink(&c, res);
+        }
         _ => panic!("unknown property {}", prop),
     }
 }
@@ -156,6 +168,7 @@ pub fn nontrivial(prop: &str, st: &Stats) -> bool {
         "C10" => g("iter_chunks") >= 1 && g("chunk_granted") >= 1,
         "C11" => g("initialiser_failed") + g("slice_initialiser_failed") >= 1,
         "C12" => g("grow_in_place") + g("grow_relocated_same_chunk") + g("grow_into_new_chunk") + g("shrink_kept_address") + g("shrink_in_place_moved_up") + g("deallocate_reclaimed") >= 1,
+        "C13" | "C14" | "C15" | "C17" => g("w2_mirrored_call") >= 2,
         _ => true,
     }
 }
